@@ -69,7 +69,9 @@ def plan(tier, seed):
                         if 'Do AddOn Calculations' in ch:
                             ch.pop('Construction Years', None)
                             if s[2] != 1:
-                                continue     # add-on report writer cannot print cy != 1 on the pinned tree (see C09)
+                                # the add-on report writer cannot print add-ons that cost something with cy != 1 on the pinned tree (see C09);
+                                # add-ons that are free (gains and profit only) print, so the cy > 1 indexing of the add-on metrics is reached
+                                ch.update({k: '0' for k in ch if k.startswith(('AddOn CAPEX', 'AddOn OPEX'))})
                         P.append({'fam': fam, 'changes': ch})
                     if tuple(s) in dev_shapes and (em == 1 or tier == 'thorough'):
                         al = dict(MISC)
@@ -93,7 +95,7 @@ def plan(tier, seed):
             if 'Do AddOn Calculations' in ch:
                 ch.pop('Construction Years', None)
                 if s[2] != 1:
-                    continue
+                    ch.update({k: '0' for k in ch if k.startswith(('AddOn CAPEX', 'AddOn OPEX'))})
             P.append({'fam': fam, 'changes': ch})
         if s == [6, 2, 1] and (fam['econ'] == 3 or tier == 'thorough'):
             al = dict(MISC)
@@ -109,7 +111,7 @@ def run(tier, seed, budget=None):
     return e1.run_generic(
         sys.modules[__name__], PID, tier, seed, budget,
         rule=('economic model x 32 end-use/plant pairs x shapes incl. construction years {1,2,3,14} and lifetimes {1,2,5,6} '
-              '(30, 100 in thorough) x structural deviations (carbon revenue, PTC, add-ons, add-ons+carbon, redrilling, a '
+              '(30, 100 in thorough) x structural deviations (carbon revenue, PTC, add-ons (with construction years > 1: add-ons that cost nothing, the only ones the report writer prints there), add-ons+carbon, redrilling, a '
               'fast-payback price/cost set) and every single deviation over the price/escalation/PTC/discounting alphabets '
               '(pairs of price parameters in thorough). Non-trivial = operating-year cash flow varies; distinct = digest of '
               '(model, end-use, plant, cy, L, conventions, first cash flows, payback). Counters report how many executions had a '
